@@ -4,8 +4,9 @@ import json, sys
 pid = sys.argv[1]
 wt = sys.argv[2] if len(sys.argv) > 2 else f'/tmp/seed_{pid}'
 round2 = len(sys.argv) > 3 and sys.argv[3] in ('round2', 'round3', 'round4', 'round5')
-N = 'TWO' if round2 else 'THREE'
-nk = 2 if round2 else 3
+fresh = len(sys.argv) > 3 and sys.argv[3] == 'fresh'      # two changes, no list of known ones
+N = 'TWO' if (round2 or fresh) else 'THREE'
+nk = 2 if (round2 or fresh) else 3
 known = ''
 if round2:
   import glob, os
